@@ -180,6 +180,7 @@ def run(ctx):
                 check_doc(ctx, res, case, d, case.model_type(3), "nested-choice", pending, compare_calls=True)
     reply_family(ctx, res)
     xsitype_chain_family(ctx, res)
+    all_duplicate_family(ctx, res)
     # model: exact equality of the number of decode calls (and of outcomes / values where comparable)
     if ctx.model and pending:
         outs = ctx.model.run([p[0] for p in pending])
@@ -303,6 +304,44 @@ def xsitype_chain_family(ctx, res):
                                              case=dict(kind="xsitype-chain", depth=depth, bottom=bname, strict=strict, document=text[:2000])))
 
 
+ALLDUP_XSD = ('<xs:schema xmlns:xs="http://www.w3.org/2001/XMLSchema" xmlns:t="urn:dup" targetNamespace="urn:dup" elementFormDefault="qualified">'
+              '<xs:element name="note" type="xs:string"/>'
+              '<xs:group name="g"><xs:all><xs:element name="note" type="xs:string" minOccurs="0"/>%s<xs:element name="other" type="xs:string" minOccurs="0"/></xs:all></xs:group>'
+              '<xs:element name="root"><xs:complexType><xs:sequence><xs:element name="head" type="xs:string"/>%s<xs:element name="tail" type="xs:string" minOccurs="0"/></xs:sequence></xs:complexType></xs:element></xs:schema>')
+
+
+def all_duplicate_family(ctx, res):
+    """an xsd:all that names one element twice (a local declaration beside a ref to the global one, or the same local name twice: not UPA
+    clean, but it compiles) under a repeating ancestor, with k occurrences in the document: the work grows with k, not with 2^rounds"""
+    import zeep.xsd
+    import zeep.settings
+    dups = {"local+ref": '<xs:element ref="t:note" minOccurs="0"/>', "local-twice": '<xs:element name="note" type="xs:string" minOccurs="0"/>',
+            "distinct": '<xs:element name="second" type="xs:string" minOccurs="0"/>'}
+    holders = {"group-unbounded": '<xs:group ref="t:g" minOccurs="0" maxOccurs="unbounded"/>',
+               "group-in-repeating-sequence": '<xs:sequence minOccurs="0" maxOccurs="unbounded"><xs:group ref="t:g"/></xs:sequence>',
+               "group-once": '<xs:group ref="t:g" minOccurs="0"/>'}
+    for dname, dup in dups.items():
+        for hname, holder in holders.items():
+            for k in (0, 1, 2, 3, 4, 5, 8, 16, 40):
+                text = '<d:root xmlns:d="urn:dup"><d:head>h</d:head>%s%s</d:root>' % ("".join("<d:note>n%d</d:note>" % i for i in range(k)), "<d:tail>t</d:tail>" if k % 2 else "")
+                for strict in (True, False):
+                    try:
+                        zs = zeep.xsd.Schema(etree.fromstring((ALLDUP_XSD % (dup, holder)).encode()), settings=zeep.settings.Settings(strict=strict))
+                    except Exception:  # noqa
+                        continue
+                    root = zs.get_element("{urn:dup}root")
+                    d = etree.fromstring(text.encode())
+                    budget = 3000 * (k + 2) + 20000
+                    outcome, events, v = enginea.budgeted(lambda: root.parse(d, zs), budget, wall=10)
+                    res.case(key=("all-duplicate", dname, hname, k, strict), nontrivial=True)
+                    res.count("doc:all-duplicate-name")
+                    res.count("outcome:" + outcome)
+                    res.extra["max_events_per_child_all_duplicate"] = max(res.extra.get("max_events_per_child_all_duplicate", 0), round(events / (k + 2), 1))
+                    if outcome == "BUDGET":
+                        res.failures.append(dict(what="decoding %d occurrences of an element an xsd:all names twice did not finish within %d interpreter call events" % (k, budget),
+                                                 case=dict(kind="all-duplicate", dup=dname, holder=hname, k=k, strict=strict, document=text[:2000])))
+
+
 def search(ctx):
     return run(ctx)
 
@@ -315,6 +354,11 @@ def replay(ctx, payload):
         xsitype_chain_family(ctx, r)
         bad = [f for f in r.failures if f["case"].get("depth") == c.get("depth") and f["case"].get("bottom") == c.get("bottom")]
         return (not bad), "xsi:type chain rerun: %d matching failures" % len(bad)
+    if c.get("kind") == "all-duplicate":
+        r = Result()
+        all_duplicate_family(ctx, r)
+        bad = [f for f in r.failures if all(f["case"].get(x) == c.get(x) for x in ("dup", "holder", "k", "strict"))]
+        return (not bad), "xsd:all duplicate-name rerun: %d matching failures" % len(bad)
     if c.get("kind") == "reply":
         r = Result()
         reply_family(ctx, r)
